@@ -854,7 +854,7 @@ static void InitFields(void) {
     AddReg("SCALER", 0x677, IntOp, SingleOp, SingleOp, True, True, False);
     AddReg("SCALERL", 0x676, IntOp, DoubleOp, DoubleOp, True, True, False);
     AddReg("SCANBIT", 0x641, IntOp, NoneOp, IntOp, True, False, False);
-    AddReg("SCANBYTE", 0x5ac, IntOp, NoneOp, IntOp, True, False, False);
+    AddReg("SCANBYTE", 0x5ac, IntOp, IntOp, NoneOp, True, True, False);
     AddReg("SETBIT", 0x583, IntOp, IntOp, IntOp, True, True, False);
     AddReg("SHLO", 0x59c, IntOp, IntOp, IntOp, True, True, False);
     AddReg("SHRO", 0x598, IntOp, IntOp, IntOp, True, True, False);
